@@ -37,7 +37,7 @@ def run_one(mutant, tier, budget, keep_evidence_dir):
         shutil.copytree("/repo/bionumpy", os.path.join(scratch, "bionumpy"),
                         ignore=shutil.ignore_patterns("__pycache__"))
         apply(scratch, mutant)
-        env = dict(os.environ, VERIF_REPO=scratch, PYTHONHASHSEED="0", PYTHONDONTWRITEBYTECODE="1")
+        env = dict(os.environ, VERIF_REPO=scratch, VERIF_EVIDENCE_DIR=os.path.join(scratch, "evidence"), PYTHONHASHSEED="0", PYTHONDONTWRITEBYTECODE="1")
         t0 = time.time()
         cmd = ["/venv/bin/python", "-m", "pbt.run", mutant["prop"], "--tier", tier]
         if budget:
@@ -59,28 +59,24 @@ def main():
     ap.add_argument("--tier", default="quick")
     ap.add_argument("--budget", type=float, default=None)
     ap.add_argument("-v", action="store_true")
+    ap.add_argument("--out", help="write one JSON record per mutant to this file")
     args = ap.parse_args()
     sel = [m for m in MUTANTS if (not args.prop or m["prop"] == args.prop.upper()) and (not args.only or args.only in m["name"])]
-    # evidence files are rewritten by the runs; save and restore the committed ones
-    ev_dir = os.path.join(VERIF_DIR, "evidence")
-    backup = tempfile.mkdtemp(prefix="pbtev_", dir="/dev/shm" if os.path.isdir("/dev/shm") else None)
-    rep_backup = None
-    if os.path.isdir(ev_dir):
-        shutil.copytree(ev_dir, os.path.join(backup, "evidence"))
     killed = 0
-    try:
-        for m in sel:
-            rc, viol, buckets, wall, tail = run_one(m, args.tier, args.budget, None)
-            ok = rc == 1 and viol
-            killed += bool(ok)
-            print(f"{'KILLED ' if ok else 'SURVIVED'} {m['prop']} {m['name']:<40} rc={rc} {wall:5.0f}s  {buckets[0][:150] if buckets else ''}", flush=True)
-            if args.v or not ok:
-                print(tail)
-    finally:
-        if os.path.isdir(os.path.join(backup, "evidence")):
-            shutil.rmtree(ev_dir, ignore_errors=True)
-            shutil.copytree(os.path.join(backup, "evidence"), ev_dir)
-        shutil.rmtree(backup, ignore_errors=True)
+    results = []
+    for m in sel:
+        rc, viol, buckets, wall, tail = run_one(m, args.tier, args.budget, None)
+        ok = rc == 1 and viol
+        killed += bool(ok)
+        results.append({"prop": m["prop"], "name": m["name"], "killed": bool(ok), "exit": rc, "wall_s": round(wall, 1),
+                        "first_bucket": buckets[0].split(" ")[0][len("bucket="):] if buckets else None})
+        print(f"{'KILLED ' if ok else 'SURVIVED'} {m['prop']} {m['name']:<40} rc={rc} {wall:5.0f}s  {buckets[0][:150] if buckets else ''}", flush=True)
+        if args.v or not ok:
+            print(tail)
+    if args.out:
+        import json
+        with open(args.out, "w") as f:
+            json.dump(results, f, indent=1)
     print(f"{killed}/{len(sel)} mutants killed")
     return 0 if killed == len(sel) else 1
 
